@@ -2181,6 +2181,10 @@ impl<'a, W: Write + 'a> Serializer<'a, W> {
                     }; //Savefile always serializes most recent version. Only savefile-abi ever writes old formats.
                     data.serialize(&mut serializer)?;
                     compressed_writer.flush()?;
+                    // Write the end-of-stream trailer here, and flush it: an error while it is
+                    // written by the encoder's Drop could not be reported.
+                    let writer = compressed_writer.finish()?;
+                    writer.flush()?;
                     return Ok(());
                 }
                 #[cfg(not(feature = "bzip2"))]
